@@ -31,7 +31,7 @@ def import_data(
         assert False, f"File path {filename} does not exist."
 
     # import
-    with open(filename, "r") as fp:
+    with open(filename, "r", newline="\n") as fp:
         # tensor type should be on the first line
         # valid: tensor, sptensor, matrix, ktensor
         data_type = import_type(fp)
